@@ -48,6 +48,24 @@ func AllLints(f *Func) []LintHit {
 		out = append(out, LintHit{"swap", fmt.Sprintf("%s#swap(%s:%s,%s)", f.Name, sa.Callee, sa.A, sa.B), sa.Call.Pos(),
 			fmt.Sprintf("the call to %s passes %s where its parameter %s is expected and %s where %s is expected (same type, so it compiles)", sa.Callee, sa.A, sa.B, sa.B, sa.A)})
 	}
+	if _, gms := GuardFieldMismatches(f); len(gms) > 0 {
+		for _, g := range gms {
+			out = append(out, LintHit{"guardfield", fmt.Sprintf("%s#guard(%s→%s)", f.Name, g.Guard, g.Field), g.If.Pos(),
+				fmt.Sprintf("field %s is taken from the other value when field %s is unset: the merge guard tests a different field than the one it fills", g.Field, g.Guard)})
+		}
+	}
+	for _, is := range RetryOnces(f) {
+		out = append(out, LintHit{"retryonce", fmt.Sprintf("%s#retry(%s)", f.Name, Src(f.Pkg.Fset, is.Cond)), is.Pos(),
+			fmt.Sprintf("`if %s` recomputes its own argument from an incremented counter once; a clash of the recomputed value is not re-tested (the idiom is a for loop)", Src(f.Pkg.Fset, is.Cond))})
+	}
+	for _, g := range GuardVarMismatches(f) {
+		out = append(out, LintHit{"guardvar", fmt.Sprintf("%s#guard(%s/%s)", f.Name, g.Tested, g.By), g.If.Pos(),
+			fmt.Sprintf("%s is defined by the preceding statement and used in the body, but the guard tests %s, which the body never uses", g.By, g.Tested)})
+	}
+	for _, r := range RawAfterNormaliseds(f) {
+		out = append(out, LintHit{"rawname", fmt.Sprintf("%s#raw(%s→%s)", f.Name, r.Raw, r.Use), r.Call.Pos(),
+			fmt.Sprintf("the block computes the attribute name as the part of %s before the separator, then passes the raw %s to %s: for a mapped \"attr:element\" pair the lookup misses", r.Raw, r.Raw, r.Use)})
+	}
 	for _, bb := range BareBreaks(f) {
 		cond := Src(f.Pkg.Fset, bb.If.Cond)
 		if bb.If.Init != nil {
@@ -431,6 +449,272 @@ func SelfCopies(f *Func) []SelfCopy {
 			}
 		}
 		out = append(out, sc)
+		return true
+	})
+	return out
+}
+
+// GuardFieldMismatch: `if A.F <cmp> zero { A.G = B.G }` with F != G, where A
+// and B have the same struct type - the merge idiom (take the other value's
+// field when ours is unset) guarded by a different field than the one assigned.
+type GuardFieldMismatch struct {
+	If           *ast.IfStmt
+	Guard, Field string
+}
+
+// GuardFieldMismatches lists the mismatching merge guards of f and returns the
+// number of merge-idiom instances seen.
+func GuardFieldMismatches(f *Func) (int, []GuardFieldMismatch) {
+	info := f.Pkg.TypesInfo
+	n := 0
+	var out []GuardFieldMismatch
+	fieldOf := func(e ast.Expr) (types.Object, string) {
+		se, ok := ast.Unparen(e).(*ast.SelectorExpr)
+		if !ok {
+			return nil, ""
+		}
+		id, ok := ast.Unparen(se.X).(*ast.Ident)
+		if !ok {
+			return nil, ""
+		}
+		if v, ok := info.Uses[se.Sel].(*types.Var); !ok || !v.IsField() {
+			return nil, ""
+		}
+		return info.Uses[id], se.Sel.Name
+	}
+	ast.Inspect(f.Decl.Body, func(nd ast.Node) bool {
+		is, ok := nd.(*ast.IfStmt)
+		if !ok || is.Init != nil || is.Else != nil || len(is.Body.List) != 1 {
+			return true
+		}
+		as, ok := is.Body.List[0].(*ast.AssignStmt)
+		if !ok || len(as.Lhs) != 1 || len(as.Rhs) != 1 || as.Tok != token.ASSIGN {
+			return true
+		}
+		aObj, g := fieldOf(as.Lhs[0])
+		bObj, g2 := fieldOf(as.Rhs[0])
+		if aObj == nil || bObj == nil || aObj == bObj || g != g2 || !types.Identical(aObj.Type(), bObj.Type()) {
+			return true
+		}
+		// condition: exactly one field selection, on A, compared with a constant/nil
+		cmp, ok := ast.Unparen(is.Cond).(*ast.BinaryExpr)
+		if !ok || (cmp.Op != token.EQL && cmp.Op != token.NEQ) {
+			return true
+		}
+		cObj, fld := fieldOf(cmp.X)
+		if cObj != aObj {
+			return true
+		}
+		if tv, ok := info.Types[cmp.Y]; !ok || (tv.Value == nil && !tv.IsNil()) {
+			return true
+		}
+		n++
+		if fld != g {
+			out = append(out, GuardFieldMismatch{is, fld, g})
+		}
+		return true
+	})
+	return n, out
+}
+
+// RetryOnce: `if p(n) { i++; n = …i… }` - the body recomputes the argument of
+// its own condition from a counter it increments, which only makes sense as a
+// loop (retry until the predicate fails).
+func RetryOnces(f *Func) []*ast.IfStmt {
+	info := f.Pkg.TypesInfo
+	var out []*ast.IfStmt
+	ast.Inspect(f.Decl.Body, func(nd ast.Node) bool {
+		is, ok := nd.(*ast.IfStmt)
+		if !ok || is.Else != nil || is.Init != nil {
+			return true
+		}
+		call, ok := ast.Unparen(is.Cond).(*ast.CallExpr)
+		if !ok || len(call.Args) == 0 {
+			return true
+		}
+		var counter, arg types.Object
+		for _, st := range is.Body.List {
+			switch x := st.(type) {
+			case *ast.IncDecStmt:
+				if id, ok := x.X.(*ast.Ident); ok && x.Tok == token.INC {
+					counter = info.ObjectOf(id)
+				}
+			case *ast.AssignStmt:
+				if len(x.Lhs) == 1 && x.Tok == token.ASSIGN {
+					if id, ok := x.Lhs[0].(*ast.Ident); ok && counter != nil {
+						usesCounter := false
+						ast.Inspect(x.Rhs[0], func(m ast.Node) bool {
+							if id2, ok := m.(*ast.Ident); ok && info.Uses[id2] == counter {
+								usesCounter = true
+							}
+							return true
+						})
+						if usesCounter {
+							arg = info.ObjectOf(id)
+						}
+					}
+				}
+			}
+		}
+		if counter == nil || arg == nil {
+			return true
+		}
+		for _, a := range call.Args {
+			if id, ok := ast.Unparen(a).(*ast.Ident); ok && info.Uses[id] == arg {
+				out = append(out, is)
+			}
+		}
+		return true
+	})
+	return out
+}
+
+// GuardVarMismatch: a statement defines W; the very next statement is
+// `if len(V) > 0 | V != nil | V != "" { … }` whose body uses W but never V,
+// with V another variable of W's type: the guard tests the wrong variable.
+type GuardVarMismatch struct {
+	If         *ast.IfStmt
+	Tested, By string
+}
+
+func GuardVarMismatches(f *Func) []GuardVarMismatch {
+	info := f.Pkg.TypesInfo
+	var out []GuardVarMismatch
+	mentions := func(n ast.Node, o types.Object) bool {
+		found := false
+		ast.Inspect(n, func(m ast.Node) bool {
+			if id, ok := m.(*ast.Ident); ok && info.Uses[id] == o {
+				found = true
+			}
+			return !found
+		})
+		return found
+	}
+	ast.Inspect(f.Decl.Body, func(nd ast.Node) bool {
+		blk, ok := nd.(*ast.BlockStmt)
+		if !ok {
+			return true
+		}
+		for i := 1; i < len(blk.List); i++ {
+			is, ok := blk.List[i].(*ast.IfStmt)
+			if !ok || is.Init != nil || is.Else != nil {
+				continue
+			}
+			def, ok := blk.List[i-1].(*ast.AssignStmt)
+			if !ok || def.Tok != token.DEFINE || len(def.Lhs) == 0 || len(def.Rhs) != 1 {
+				continue
+			}
+			if _, isCall := ast.Unparen(def.Rhs[0]).(*ast.CallExpr); !isCall {
+				continue // a constant or copied initial value, not a freshly computed result
+			}
+			wid, ok := def.Lhs[0].(*ast.Ident)
+			if !ok || wid.Name == "_" {
+				continue
+			}
+			w := info.Defs[wid]
+			if w == nil {
+				continue
+			}
+			// condition variable
+			var vExpr ast.Expr
+			if cmp, ok := ast.Unparen(is.Cond).(*ast.BinaryExpr); ok && (cmp.Op == token.GTR || cmp.Op == token.NEQ) {
+				vExpr = cmp.X
+				if c2, ok := cmp.X.(*ast.CallExpr); ok && len(c2.Args) == 1 {
+					if id, ok := c2.Fun.(*ast.Ident); ok && id.Name == "len" {
+						vExpr = c2.Args[0]
+					}
+				}
+			}
+			vid, ok := vExpr.(*ast.Ident)
+			if !ok {
+				continue
+			}
+			v := info.Uses[vid]
+			if v == nil || v == w || !types.Identical(v.Type(), w.Type()) {
+				continue
+			}
+			if _, isVar := v.(*types.Var); !isVar {
+				continue
+			}
+			if mentions(is.Body, w) && !mentions(is.Body, v) {
+				out = append(out, GuardVarMismatch{is, vid.Name, wid.Name})
+			}
+		}
+		return true
+	})
+	return out
+}
+
+// RawAfterNormalised: a block derives n := strings.Split(E, sep)[0] (the part
+// of a "name:mapped" pair before the separator) and later passes the raw E
+// where, in the same block, n is passed to the same callee: a lookup by the raw
+// pair in place of the name.
+type RawAfterNormalised struct {
+	Call     *ast.CallExpr
+	Raw, Use string
+}
+
+func RawAfterNormaliseds(f *Func) []RawAfterNormalised {
+	info := f.Pkg.TypesInfo
+	var out []RawAfterNormalised
+	ast.Inspect(f.Decl.Body, func(nd ast.Node) bool {
+		blk, ok := nd.(*ast.BlockStmt)
+		if !ok {
+			return true
+		}
+		for i, st := range blk.List {
+			as, ok := st.(*ast.AssignStmt)
+			if !ok || as.Tok != token.DEFINE || len(as.Lhs) != 1 || len(as.Rhs) != 1 {
+				continue
+			}
+			ix, ok := ast.Unparen(as.Rhs[0]).(*ast.IndexExpr)
+			if !ok {
+				continue
+			}
+			call, ok := ix.X.(*ast.CallExpr)
+			if !ok || CalleeName(info, call) != "strings.Split" || len(call.Args) != 2 {
+				continue
+			}
+			if v, isConst := info.Types[ix.Index]; !isConst || v.Value == nil || v.Value.ExactString() != "0" {
+				continue
+			}
+			raw := call.Args[0]
+			nObj := info.Defs[as.Lhs[0].(*ast.Ident)]
+			if nObj == nil {
+				continue
+			}
+			// callees that receive n later in the block
+			takesN := map[string]bool{}
+			for _, later := range blk.List[i+1:] {
+				ast.Inspect(later, func(m ast.Node) bool {
+					c2, ok := m.(*ast.CallExpr)
+					if !ok {
+						return true
+					}
+					for _, a := range c2.Args {
+						if id, ok := ast.Unparen(a).(*ast.Ident); ok && info.Uses[id] == nObj {
+							takesN[CalleeName(info, c2)] = true
+						}
+					}
+					return true
+				})
+			}
+			for _, later := range blk.List[i+1:] {
+				ast.Inspect(later, func(m ast.Node) bool {
+					c2, ok := m.(*ast.CallExpr)
+					if !ok {
+						return true
+					}
+					name := CalleeName(info, c2)
+					for _, a := range c2.Args {
+						if SameExpr(info, a, raw) && name != "" && (takesN[name] || attrNameParams[strings.ReplaceAll(name, Mod+"/", "")] != nil) {
+							out = append(out, RawAfterNormalised{c2, Src(f.Pkg.Fset, raw), name})
+						}
+					}
+					return true
+				})
+			}
+		}
 		return true
 	})
 	return out
